@@ -185,7 +185,10 @@ struct E5 : Engine {
 				cnt["loads"]++;
 				bool want = match && match->deadline >= now();
 				if(loaded && !want){ res.fail(match ? "expired-session-accepted" : "forged-session-accepted",where + ": load() accepted a cookie that " + (match ? "expired " + std::to_string((long)(now() - match->deadline)) + " s ago" : "this server never issued") + " (" + std::to_string(presented.size()) + " chars, attack " + o.gets("kind") + ")"); break; }
+				bool identical = false; for(auto &is:issued) if(is.cookie == presented) identical = true;
+				if(!loaded && want && !identical){ cnt["noncanonical_encoding_rejected"]++; want = false; }   // another spelling of an issued cipher text: the stricter answer is fine too
 				if(!loaded && want){ res.fail("valid-session-rejected",where + ": load() rejected a cookie issued by this server that is still valid"); break; }
+				if(loaded && !identical) cnt["noncanonical_encoding_accepted"]++;
 				if(loaded){ cnt["loads_accepted"]++; MData got; for(auto &k:std::vector<std::string>{"d","_t"}) if(s.is_set(k)) got[k].value = s.get(k); if(!(got == match->data)){ res.fail("wrong-session-data",where + ": accepted cookie returned different data than was saved with it"); break; } }
 				else { cnt["loads_rejected"]++; if(s.is_set("d")) res.fail("data-after-rejection",where + ": rejected session still exposes data");
 					if(!presented.empty() && jar.jar.count(PREFIX) && jar.jar[PREFIX].value == presented && presented[0] == 'C'){ res.fail("bad-cookie-not-cleared",where + ": the rejected cookie was not cleared from the browser"); break; } }
